@@ -141,6 +141,12 @@ def _apply(m, ev, D):
                 m.set_params(**{ev[1]: ev[2]})
             elif kind == "clone":
                 m = clone(m)
+            elif kind == "pickle":
+                import pickle
+                m = pickle.loads(pickle.dumps(m))
+            elif kind == "deepcopy":
+                import copy
+                m = copy.deepcopy(m)
         except Exception as e:  # noqa
             # e.g. predicting before fit: refusing is fine, the history goes on
             if kind == "path1" and "0 feature(s)" in str(e):
@@ -175,6 +181,7 @@ def history_search(case):
         events += [("fit1_noy",), ("score1_noy",)]
     if not decorated:
         events.append(("clone",))        # clone() returns an undecorated estimator by construction
+        events += [("pickle",), ("deepcopy",)]   # a copy of the (fitted) estimator is the same estimator: pure events like the queries
     if name != "Kauri":
         events.append(("proba1",))
         events += [("set",) + e for e in SET_EVENTS["gradient"]]
@@ -278,9 +285,10 @@ def history_search(case):
             if _params_repr(m) != _params_repr(ref):
                 report("set_params_of_get_params_is_not_identity", {"history": hist})
         # queries are pure: a history with predict / predict_proba / score events answers later queries like the same history without them
-        if any(e[0] in ("predict1", "proba1", "score1") for e in hist):
+        PURE = ("predict1", "proba1", "score1", "pickle", "deepcopy")
+        if any(e[0] in PURE for e in hist):
             mq, _ = replay(hist)
-            mp, _ = replay(tuple(e for e in hist if e[0] not in ("predict1", "proba1", "score1")))
+            mp, _ = replay(tuple(e for e in hist if e[0] not in PURE))
 
             def answers(mm):
                 out = []
